@@ -218,8 +218,22 @@ CLAIMS = {
              "listed mailboxes' without re-implementing RFC 822, and the callback-driven parser is outside what the tool "
              "handled in the time available. A change there is NOT detected by this check.",
         design_ref="DESIGN.md section 5 C17"),
+    "C20": dict(
+        text="SCOPED claim. CBMC's built-in checks (array bounds, pointer validity, pointer overflow, signed overflow, division "
+             "by zero, undefined shifts) are enabled in EVERY proof of every property, so every function listed under "
+             "functions_under_contract in any evidence file is memory-safe and free of signed overflow under its stated "
+             "precondition for all inputs (bounded where the proof is labelled bounded). In addition the shared kernel is "
+             "proved under its own contracts: stralloc_ready/readyplus (all 2^32 requests: capacity >= request in 64-bit "
+             "arithmetic, allocated size = recorded capacity, failure leaves the object untouched), stralloc_catb/copyb/"
+             "append (exact lengths, bytes and trailing Z inside the allocation, any n), byte_chr, byte_rchr, scan_ulong "
+             "(loop contracts, any length: never read past the buffer / the first non-digit), qmail-qmtpd getlen (no "
+             "overflow, any number of digits).",
+        note="The property as written (no input corrupts ANY program) is decided only for the listed functions. NOT covered: "
+             "dns.c, token822.c, headerbody.c, hfield.c, qmail-inject.c, qmail-qmtpd/qmqpd main, qmail-local main, "
+             "qmail-popup, maildir.c, ipme.c, tcpto.c, control.c, getln/getln2 and substdio's own bodies (their contracts "
+             "are assumed by the proofs that call them; a substdio proof was attempted and removed, see DESIGN). "
+             "--conversion-check is off (qmail's digit test relies on unsigned wrap-around, which is defined behaviour).",
+        design_ref="DESIGN.md section 5 C20"),
 }
 
-NOT_APPLICABLE = {p: PENDING for p in
-                  [
-                   "C20"]}
+NOT_APPLICABLE = {}
